@@ -1523,7 +1523,7 @@ func c12Worker(args []string) int {
 			case "random":
 				c12RandomCase(ctx, ask, &c12Gen{r: r}, shard == 0 && k < 3, at)
 			case "typed":
-				c12TypedCase(ctx, r, at)
+				c12TypedCase(ctx, ask, r, at)
 			case "sorted":
 				c12SortedCase(ctx, ask, r, at)
 			case "seek":
@@ -1845,6 +1845,26 @@ func c12RandomCase(ctx *core.Ctx, d interface {
 	if d == nil || tg.what == "type-string-to-int64" {
 		return
 	}
+	// L2: EqualNodes / SameNodes (the guards of the reader entry points) vs their Lean mirrors
+	{
+		var goEq, goSame bool
+		_, gerr := c12Guard(func() (*c12Out, error) {
+			goEq, goSame = parquet.EqualNodes(c.tgtS, c.srcS), parquet.SameNodes(c.tgtS, c.srcS)
+			return nil, nil
+		})
+		a, err := d.AskMany([]string{"convert.guards " + srcText + " " + tgtText})
+		b := map[bool]string{true: "1", false: "0"}
+		switch {
+		case gerr != nil:
+			ctx.Fail("L1", "path-panic:schema-comparison:"+tg.mode, gerr.Error(), detail(nil))
+		case err != nil:
+			ctx.Fail("L2", "driver-error", err.Error(), nil)
+		case a[0] != "ok "+b[goEq]+" "+b[goSame]+" 1 1":
+			ctx.Fail("L2", "schema-guards-vs-lean-mirror", "EqualNodes/SameNodes(target, source) and the Lean mirrors equalN/sameN disagree (or field names are not unique)",
+				detail(map[string]any{"go": "ok " + b[goEq] + " " + b[goSame] + " 1 1", "lean": a[0]}))
+		}
+		ctx.Hist("guards", "EqualNodes="+b[goEq]+" SameNodes="+b[goSame]+" ("+tg.mode+")")
+	}
 	reqs := make([]string, nrows)
 	for i := range reqs {
 		reqs[i] = "convert.run " + srcText + " " + tgtText + " " + valTexts[i]
@@ -2160,7 +2180,7 @@ func c12ReadAs[A, B any](ctx *core.Ctx, at func(path, mode string, detail any), 
 // c12Retarget: one deprecated Reader over a file written as A, every Read call with a target
 // type drawn at random from {A, B}: the k-th call must yield row k seen through the type it was
 // given (the row cursor is shared, the conversion is that of the CURRENT target).
-func c12Retarget[A, B any](ctx *core.Ctx, r *rand.Rand, at func(path, mode string, detail any), name string, rows []A, want []B) {
+func c12Retarget[A, B any](ctx *core.Ctx, d c12Asker, r *rand.Rand, at func(path, mode string, detail any), name string, rows []A, want []B) {
 	var buf bytes.Buffer
 	if _, err := c12Guard(func() (*c12Out, error) { return nil, parquet.Write(&buf, rows) }); err != nil {
 		ctx.Fail("L1", "typed-write-error:"+name, err.Error(), nil)
@@ -2184,6 +2204,7 @@ func c12Retarget[A, B any](ctx *core.Ctx, r *rand.Rand, at func(path, mode strin
 	ctx.Hist("path", "reader-read-retarget:"+name)
 	ctx.Hist("retarget-switches", fmt.Sprint(min(switches, 8)))
 	bad := ""
+	var goAns []string // per call: <target><row> when the call yields that row through that target
 	_, err := c12Guard(func() (*c12Out, error) {
 		rd := parquet.NewReader(bytes.NewReader(file))
 		defer rd.Close()
@@ -2202,16 +2223,31 @@ func c12Retarget[A, B any](ctx *core.Ctx, r *rand.Rand, at func(path, mode strin
 			if err != nil {
 				return nil, fmt.Errorf("call %d (target %s): %w", i, tg, err)
 			}
-			if !c12DeepEq(got, exp) && bad == "" {
-				bad = fmt.Sprintf("call %d (target %s): expected %s got %s", i, tg, c12Dump(exp), c12Dump(got))
+			if c12DeepEq(got, exp) {
+				goAns = append(goAns, fmt.Sprintf("%s%d", tg, i))
+			} else {
+				goAns = append(goAns, "?")
+				if bad == "" {
+					bad = fmt.Sprintf("call %d (target %s): expected %s got %s", i, tg, c12Dump(exp), c12Dump(got))
+				}
 			}
 		}
 		var a A
 		if err := rd.Read(&a); err != io.EOF {
 			return nil, fmt.Errorf("call %d after the last row: %v instead of io.EOF", len(targets), err)
 		}
+		goAns = append(goAns, "eof")
 		return nil, nil
 	})
+	// L2: the Lean mirror of Reader.Read / reader.init / SeekToRow / ReadRows on the same history
+	if d != nil && err == nil {
+		if a, derr := d.AskMany([]string{fmt.Sprintf("convert.retarget %d %sA", len(rows), strings.Join(targets, ""))}); derr != nil {
+			ctx.Fail("L2", "driver-error", derr.Error(), nil)
+		} else if want := "ok " + strings.Join(goAns, ";"); a[0] != want {
+			ctx.Fail("L2", "reader-retarget-vs-lean-mirror", "Reader.Read with changing target types and the Lean mirror Rd.run disagree ('?' = a row that is not the expected one)",
+				map[string]any{"go": want, "lean": a[0], "case": det})
+		}
+	}
 	if err != nil {
 		k := "path-error:reader-read-retarget:" + name + ":" + errClass(err)
 		if strings.HasPrefix(err.Error(), "PANIC") {
@@ -2260,7 +2296,7 @@ func c12Dump(v reflect.Value) string {
 	return fmt.Sprintf("%#v", v.Interface())
 }
 
-func c12TypedCase(ctx *core.Ctx, r *rand.Rand, at func(path, mode string, detail any)) {
+func c12TypedCase(ctx *core.Ctx, d c12Asker, r *rand.Rand, at func(path, mode string, detail any)) {
 	p32 := func(x int32) *int32 { return &x }
 	pf := func(x float64) *float64 { return &x }
 	ps := func(x string) *string { return &x }
@@ -2325,10 +2361,10 @@ func c12TypedCase(ctx *core.Ctx, r *rand.Rand, at func(path, mode string, detail
 		c12ReadAs(ctx, at, "add-optional-and-required-at-root", "", a3, b3)
 		c12ReadAs(ctx, at, "add-repeated-group-next-to-optional", "added-column-borrows-sibling-levels:repeated-next-to-optional-sibling", a4, b4)
 		c12ReadAs(ctx, at, "permute-only", "", a5, b5)
-		c12Retarget(ctx, r, at, "drop-permute-flat", a1, b1)
-		c12Retarget(ctx, r, at, "drop-permute-in-repeated-group", a2, b2)
-		c12Retarget(ctx, r, at, "add-optional-and-required-at-root", a3, b3)
-		c12Retarget(ctx, r, at, "permute-only", a5, b5)
+		c12Retarget(ctx, d, r, at, "drop-permute-flat", a1, b1)
+		c12Retarget(ctx, d, r, at, "drop-permute-in-repeated-group", a2, b2)
+		c12Retarget(ctx, d, r, at, "add-optional-and-required-at-root", a3, b3)
+		c12Retarget(ctx, d, r, at, "permute-only", a5, b5)
 	}
 }
 
